@@ -51,7 +51,8 @@ let handle (line : string) : string =
       tp := load_probing !buckets !saw_unk !unk_prob us secs;
       tt := load_trie (nat_of_int !order) !saw_unk !unk_prob us secs;
       if not !saw_unk then arpa_tbl := ([N0], (!unk_prob, Z0)) :: !arpa_tbl;
-      "loaded P=" ^ loaded_str !tp ^ " T=" ^ loaded_str !tt
+      let inv = function Loaded t -> if tinv_check (nat_of_int !order) t !arpa_tbl then "1" else "0" | LoadError _ -> "-" in
+      "loaded P=" ^ loaded_str !tp ^ " T=" ^ loaded_str !tt ^ " invP=" ^ inv !tp ^ " invT=" ^ inv !tt
   | "S" :: kd :: bos :: ws ->
       let k = if kd = "P" then Probing else Trie in
       (match (if kd = "P" then !tp else !tt) with
